@@ -33,7 +33,8 @@ LEVEL_NOTE = ("Concurrency: one sender and one receiver; withRetry holds cs.mu e
               "there (finding F33, fixed).")
 GAP = ("answers arriving in the middle of a replay burst; concurrent SendMsg/RecvMsg schedules other than the one cs.mu leaves open "
        "(the receiver running inside the sender's window between transport write and re-locking, which is modelled, proved and driven); "
-       "context cancellation during backoff (C23 covers cancel); picker failures (C23)")
+       "context cancellation during backoff (C23 covers cancel); picker failures (C23); a zero-length backoff right after a GOAWAY "
+       "(the retry races with the channel dropping the draining transport: generator keeps that backoff positive)")
 ASSUMPTIONS = ["the scripted server writes answers only at quiescent points", "http2 transport delivers frames of one stream in order (C02/C05)"]
 RULE = ("s_retry: random policy (maxAttempts 0/2..6, codes, backoff, channel limit 0/2/3/7, throttling, disableRetry), RPC kind "
         "(unary/client-stream/bidi), buffer limit (default, 0..60, negative), server script of 1..6 behaviours (trailers-only with "
@@ -90,6 +91,15 @@ def cfg(rng):
     dis = int(rng.random() < 0.06)
     n = rng.randrange(1, 7)
     script = ";".join(beh(rng, kind, codes if ma else []) for _ in range(n))
+    # A GOAWAY answer on a retried attempt is followed by a timed retry. With a backoff that rounds to 0 ns the retry
+    # timer fires without the bubble becoming quiescent, i.e. before the channel's own goroutine has taken the draining
+    # transport away: the next pick may still get it, NewStream fails ("draining", transparent retry) and one more pick
+    # follows — a scheduling race the model does not decide. Keep the backoff positive for such scripts.
+    if "G" in script.split(";")[1:]:
+        ib = max(ib, 10**6)
+        mb = max(mb, 10**6)
+        if mult == "0.5":
+            mult = "1"
     return ("cfg ma=%d codes=%s ib=%d mb=%d mult=%s chan=%d thr=%s dis=%d kind=%s script=%s ns=%s" %
             (ma, ",".join(map(str, codes)), ib, mb, mult, chan, thr, dis, kind, script, ns_script(rng, codes))), kind
 
